@@ -163,3 +163,15 @@ func (st *SlimTrie) VerifBuffers() [][2]uintptr {
 	}
 	return rst
 }
+
+// VerifSearchID exposes searchID: the node ids of the three results of Search,
+// -1 for none. (Search itself cannot distinguish "no neighbour" from a
+// neighbour without a value.)
+func (st *SlimTrie) VerifSearchID(key string) (int32, int32, int32) {
+	return st.searchID(key)
+}
+
+// VerifGEPath exposes getGEPath.
+func (st *SlimTrie) VerifGEPath(key string) ([]int32, bool) {
+	return st.getGEPath(key)
+}
